@@ -62,10 +62,12 @@ def _golden_for(job, idx):
         raise SystemExit("outfault: fault-free run of job %s failed: %s\n%s" % (job["name"], r.outcome(), r.stderr.decode()[-2000:]))
     out = common.collect_outputs(job, root)
     events = {}
-    rel2ch = {rel: ch for ch, rel in job["outputs"].items()}
+    # every channel has its own directory: whatever file the tool writes in there (the target itself, or a
+    # temporary it later renames into place) belongs to that channel
+    dir2ch = {os.path.dirname(rel) + "/": ch for ch, rel in job["outputs"].items()}
     written = {ch: 0 for ch in job["outputs"]}
     for ev in r.trace:
-        ch = rel2ch.get(ev["path"])
+        ch = next((c for d, c in dir2ch.items() if ev["path"].startswith(d)), None)
         if ch is None:
             continue
         e = events.setdefault(ch, {"open": 0, "write": 0, "close": 0, "sizes": []})
@@ -79,7 +81,7 @@ def _golden_for(job, idx):
             e["close"] += 1
     for ch in job["outputs"]:
         raw = runner.read_file(os.path.join(root, job["outputs"][ch]))
-        if raw is None or written[ch] != len(raw):
+        if raw is None or written[ch] < len(raw):
             raise SystemExit("outfault: traced writes (%d) do not account for %s (%s bytes) -- seam incomplete" %
                              (written[ch], job["outputs"][ch], None if raw is None else len(raw)))
     common.cleanup(root)
@@ -170,7 +172,7 @@ ABSORBABLE = ("eintr", "shortok")
 
 
 def _rule(job, f):
-    path = job["outputs"][f["ch"]]
+    path = os.path.dirname(job["outputs"][f["ch"]]) + "/*"      # any file of the channel's directory
     if f["op"] == "open":
         return "open:%s:%d:fail:%s" % (path, f["k"], f["err"])
     if f["op"] == "close":
